@@ -27,13 +27,6 @@ pub assume_specification<F: std::str::FromStr> [str::parse::<F>] (s: &str) -> (r
     ensures r is Ok ==> parse_spec::<F>(s@) == Some(r->Ok_0),
             r is Err ==> parse_spec::<F>(s@) is None;
 
-// decimal rendering of a natural number (what `{}` prints for usize; what parse::<usize> inverts)
-pub open spec fn dec_digit(d: nat) -> char { (('0' as u8) + (d as u8)) as char }
-pub open spec fn dec(n: nat) -> Seq<char>
-    decreases n
-{
-    if n < 10 { seq![dec_digit(n)] } else { dec(n / 10).push(dec_digit(n % 10)) }
-}
 #[verifier::external_body]
 pub proof fn fact_parse_usize_dec(n: nat)
     requires n <= usize::MAX
